@@ -312,10 +312,17 @@ Section Library.
     end.
 End Library.
 
-(* ---- allocation requested on behalf of length prefixes (C20) ----
-   [alloc_x bs] = bytes asked from the allocator by reader x on stream bs: the buffer of
-   every make([]byte, n) and 16 bytes per element of every make([]string, n), with n
-   read from the stream; the requests are made before the announced data is read. *)
+(* ---- allocation driven by the stream (C20) ----
+   [alloc_x bs] = bytes the reader x asks from the allocator on stream bs because of what the
+   stream says, for the repaired loader (engine commit 2f18ef4):
+     - every fixed buffer: 8 bytes for a length / count / int, 1 for a bool;
+     - a byte block announced with length n (ReadStringFromReader, ConstantMeta.ValueBytes) is
+       read by readBytesFromReader = io.CopyN into a growing bytes.Buffer: the account is the
+       number of bytes the buffer comes to hold, min n (bytes remaining); n > MaxInt64 is
+       rejected before anything is read.  (bytes.Buffer's growth policy - 512 bytes at least,
+       doubling - is a constant factor the account does not model; the harness bounds the
+       real TotalAlloc.)
+     - a []string grows by append: 16 bytes (one string header) per element actually read. *)
 Definition after {A} (r : res (A * list byte)) (k : list byte -> N) : N :=
   match r with Ok (_, rest) => k rest | _ => 0 end.
 Definition afterv {A} (r : res (A * list byte)) (k : A -> list byte -> N) : N :=
@@ -323,7 +330,12 @@ Definition afterv {A} (r : res (A * list byte)) (k : A -> list byte -> N) : N :=
 
 Definition alloc_u64 (bs : list byte) : N := 8.
 Definition alloc_str (bs : list byte) : N :=
-  8 + match read_u64 bs with Ok (n, _) => n | _ => 0 end.
+  8 + match read_u64 bs with
+      | Ok (n, r) => if two63 <=? n then 0 else N.min n (N.of_nat (List.length r))
+      | _ => 0
+      end.
+(* one element of a []string: the string, then the append *)
+Definition alloc_str_elem (bs : list byte) : N := alloc_str bs + after (read_str bs) (fun _ => string_header_size).
 Definition alloc_bool (bs : list byte) : N := 1.
 
 Fixpoint alloc_seq_fuel {A} (rd : reader A) (al : list byte -> N) (fuel : nat) (count : N) (bs : list byte) : N :=
@@ -337,10 +349,10 @@ Fixpoint alloc_seq_fuel {A} (rd : reader A) (al : list byte -> N) (fuel : nat) (
 Definition alloc_seq {A} (rd : reader A) (al : list byte -> N) (count : N) (bs : list byte) : N :=
   alloc_seq_fuel rd al (List.length bs) count bs.
 
-(* count prefix, then (for a []string) the slice itself, then the elements *)
-Definition alloc_counted {A} (slice_elem : N) (rd : reader A) (al : list byte -> N) (bs : list byte) : N :=
+(* count prefix, then the elements (nothing is allocated by the count itself) *)
+Definition alloc_counted {A} (rd : reader A) (al : list byte -> N) (bs : list byte) : N :=
   8 + match read_u64 bs with
-      | Ok (n, r) => slice_elem * n + alloc_seq rd al n r
+      | Ok (n, r) => alloc_seq rd al n r
       | _ => 0
       end.
 
@@ -349,7 +361,7 @@ Definition alloc_field (k : fkind) (bs : list byte) : N :=
   | KStr => alloc_str bs
   | KInt => 8
   | KBool => 1
-  | KStrs => alloc_counted string_header_size read_str alloc_str bs
+  | KStrs => alloc_counted read_str alloc_str_elem bs
   | KBytes => alloc_str bs
   end.
 
@@ -368,7 +380,7 @@ Definition alloc_entry (bs : list byte) : N :=
 
 Definition alloc_pair (bs : list byte) : N := alloc_str bs + after (read_str bs) alloc_str.
 Definition alloc_keyed (bs : list byte) : N :=
-  alloc_str bs + after (read_str bs) (alloc_counted string_header_size read_str alloc_str).
+  alloc_str bs + after (read_str bs) (alloc_counted read_str alloc_str_elem).
 
 (* maps grow as they are filled: no request is driven by their count *)
 Definition alloc_decode (bs : list byte) : N :=
@@ -376,11 +388,11 @@ Definition alloc_decode (bs : list byte) : N :=
   if negb (String.eqb v codec_version) then 0 else
   alloc_str r0 + after (read_str r0) (fun r1 =>
   alloc_str r1 + after (read_str r1) (fun r2 =>
-  alloc_counted 0 read_entry alloc_entry r2 + after (read_counted read_entry r2) (fun r3 =>
+  alloc_counted read_entry alloc_entry r2 + after (read_counted read_entry r2) (fun r3 =>
   alloc_str r3 + after (read_str r3) (fun r4 =>
   alloc_str r4 + after (read_str r4) (fun r5 =>
-  alloc_counted 0 read_pair alloc_pair r5 + after (read_counted read_pair r5) (fun r6 =>
-  alloc_counted 0 read_pair alloc_pair r6 + after (read_counted read_pair r6) (fun r7 =>
-  alloc_counted 0 read_pair alloc_pair r7 + after (read_counted read_pair r7) (fun r8 =>
-  alloc_counted 0 read_keyed alloc_keyed r8 + after (read_counted read_keyed r8) (fun r9 =>
-  alloc_counted 0 read_keyed alloc_keyed r9)))))))))).
+  alloc_counted read_pair alloc_pair r5 + after (read_counted read_pair r5) (fun r6 =>
+  alloc_counted read_pair alloc_pair r6 + after (read_counted read_pair r6) (fun r7 =>
+  alloc_counted read_pair alloc_pair r7 + after (read_counted read_pair r7) (fun r8 =>
+  alloc_counted read_keyed alloc_keyed r8 + after (read_counted read_keyed r8) (fun r9 =>
+  alloc_counted read_keyed alloc_keyed r9)))))))))).
